@@ -73,7 +73,17 @@ def T(op, *args) -> str:
 
 def destruct(t):
     """(op, args) of a term built by T(), ("const", value) for a constant, (None, ()) for an atom."""
-    return STRUCT.get(t, (None, ()))
+    r = STRUCT.get(t)
+    if r is not None:
+        return r
+    if t and (t[0] in "'\"([{-0123456789" or t.startswith(("b'", 'b"', "True", "False", "None", "frozenset("))):
+        try:
+            v = ast.literal_eval(t)
+        except Exception:
+            return (None, ())
+        STRUCT[t] = ("const", v)
+        return STRUCT[t]
+    return (None, ())
 
 
 def tv(term, **kw) -> AV:
@@ -86,6 +96,9 @@ class TermRule(BaseRule):
     wants_compose = True
     wants_subscript = True
     opaque_calls_raise = False
+
+    def term(self, op, *args):
+        return T(op, *args)
 
     # ---- hooks for subclasses
     def call_hook(self, it, st, node, recv, pos, kw):
@@ -173,7 +186,7 @@ class TermRule(BaseRule):
         s = st.copy()
         s.ts[key] = True
         s.ts["loops"] = s.ts.get("loops", ()) + (I,)
-        if isinstance(stmt.target, (ast.Tuple, ast.List)):
+        if isinstance(stmt.target, (ast.Tuple, ast.List)) and not any(isinstance(t, ast.Starred) for t in stmt.target.elts):
             n = len(stmt.target.elts)
             it.assign(s, stmt.target, AV("tuple", tuple(tv(T(f"each{i}", I)) for i in range(n)), truth=True, none=False))
         else:
